@@ -508,6 +508,7 @@ def run(ctx):
 
     representation_limits(ctx)
     child_list_ownership(ctx)
+    clone_identity(ctx)
 
 
 def _stdlib_source(dotted):
@@ -641,6 +642,54 @@ def child_list_ownership(ctx, rid="C04.16"):
     r.idiom(rid, n >= 8, "child-list-writes-found", "treebuilders/etree.py", "only %d writes of the child lists were recognised" % n)
 
 
+def clone_identity(ctx, rid="C04.17"):
+    """C04.17: a shallow clone (adoption agency, reconstruction of formatting elements) is the same element: same name and the
+    same *stored* namespace.  `nameTuple` is a normalised view (namespace None reads as the XHTML namespace), so a clone built
+    from it turns un-namespaced elements (namespaceHTMLElements=False) into XHTML-namespaced ones in this back-end only."""
+    r = ctx.r
+    r.rule(rid, "cloneNode builds the clone from the element's own name and stored namespace", floor=2)
+    et_el, dm_el = backends(ctx)[0:2] if False else (None, None)
+    mod = ctx.repo.module("treebuilders/etree.py")
+    f = next((x for x in mod.all_functions if x.name == "cloneNode" and x.cls is not None and x.cls.name == "Element"), None)
+    if f is None:
+        r.idiom(rid, False, "etree-clone", "treebuilders/etree.py", "etree Element.cloneNode not found")
+    else:
+        ctor = [c for c in walk_no_nested(f.node) if isinstance(c, ast.Call) and (norm(c.func) in ("type(self)", "Element", "self.__class__")) and len(c.args) >= 1]
+        src = {}
+        for a in walk_no_nested(f.node):
+            if isinstance(a, ast.Assign) and len(a.targets) == 1:
+                t = a.targets[0]
+                if isinstance(t, ast.Name):
+                    src[t.id] = norm(a.value)
+                elif isinstance(t, (ast.Tuple, ast.List)):
+                    for i, e in enumerate(t.elts):
+                        if isinstance(e, ast.Name):
+                            src[e.id] = "%s[%d]" % (norm(a.value), i)
+        if len(ctor) != 1:
+            r.idiom(rid, False, "etree-clone", f.where, "the constructor call of etree cloneNode was not recognised")
+        else:
+            args = [norm(x) for x in ctor[0].args] + ["%s=%s" % (k.arg, norm(k.value)) for k in ctor[0].keywords]
+            resolved = [src.get(x, x) for x in args]
+            ok = resolved[:2] == ["self.name", "self.namespace"] or set(resolved) == {"self.name", "namespace=self.namespace"}
+            r.idiom(rid, ok, "etree-clone", "treebuilders/etree.py:%d" % ctor[0].lineno,
+                    "etree cloneNode constructs the clone from %s (not recognised)" % resolved,
+                    wrong=[(any("nameTuple" in x for x in resolved),
+                            "etree cloneNode takes the clone's namespace from `nameTuple`, a normalised view in which namespace None reads as "
+                            "the XHTML namespace: with namespaceHTMLElements=False a re-opened formatting element (`<p><i>a</p>b`) becomes "
+                            "`{http://www.w3.org/1999/xhtml}i` in the ElementTree back-end only")],
+                    detail={"arguments": resolved})
+    dmod = ctx.repo.module("treebuilders/dom.py")
+    g = next((x for x in dmod.all_functions if x.name == "cloneNode" and x.cls is not None and x.cls.name == "NodeBuilder"), None)
+    if g is None:
+        r.idiom(rid, False, "dom-clone", "treebuilders/dom.py", "dom NodeBuilder.cloneNode not found")
+    else:
+        calls = [c for c in walk_no_nested(g.node) if isinstance(c, ast.Call) and norm(c.func) == "self.element.cloneNode"]
+        shallow = len(calls) == 1 and len(calls[0].args) == 1 and ctx.ce.try_eval(calls[0].args[0], dmod) is False
+        r.idiom(rid, shallow, "dom-clone", g.where, "dom cloneNode does not delegate to a shallow xml.dom cloneNode(False)",
+                wrong=[(len(calls) == 1 and len(calls[0].args) == 1 and ctx.ce.try_eval(calls[0].args[0], dmod) is True,
+                        "dom cloneNode makes a deep copy: the clone of a formatting element carries the original's children")])
+
+
 def thorough(ctx):
     from .. import selftest
     selftest.run(ctx, sys.modules[__name__])
@@ -673,6 +722,7 @@ def mutants():
           "        def insertText(self, data, before):\n            insertBefore = before\n            text = self.element.ownerDocument", "C04.5"),
         T("inserttext-overwrite", "treebuilders/etree.py", "                    if not self._element.text:\n                        self._element.text = \"\"\n                    self._element.text += data\n\n        def cloneNode",
           "                    self._element.text = data\n\n        def cloneNode", "C04.6"),
+        T("clone-from-nametuple", "treebuilders/etree.py", "            element = type(self)(self.name, self.namespace)", "            namespace, name = self.nameTuple\n            element = type(self)(name, namespace)", "C04.17"),
         T("reparent-bulk-extend", "treebuilders/etree.py", "            base.Node.reparentChildren(self, newParent)",
           "            newParent._element.extend(self._element)\n            newParent._childNodes.extend(self._childNodes)\n            del self._element[:]\n            self._childNodes = []", "C04.16"),
         T("reparent-del-slice", "treebuilders/base.py", "            newParent.appendChild(child)\n        self.childNodes = []", "            newParent.appendChild(child)\n        del self.childNodes[:]", "C04.3"),
